@@ -5,6 +5,6 @@ HERE="$(cd "$(dirname "${BASH_SOURCE[0]}")/.." && pwd)"
 cd "$HERE"
 echo "== unchanged tree, quick";    tools/all.sh quick    | grep -E "exit=|VIOLATION|UNDECIDED|CHECKER-ERROR"
 echo "== unchanged tree, thorough"; tools/all.sh thorough | grep -E "exit=|VIOLATION|UNDECIDED|CHECKER-ERROR"
-echo "== seeded";   tools/seeded_selftest.sh   | grep -v "check-exit=1 "
-echo "== harmless"; tools/harmless_selftest.sh | grep -v "check-exit=0$"
+echo "== seeded";   tools/seeded_selftest.sh   | grep --line-buffered -v "check-exit=1 "
+echo "== harmless"; tools/harmless_selftest.sh | grep --line-buffered -v "check-exit=0$"
 echo "== done"
